@@ -594,6 +594,120 @@ def gen_contract(rng, n_tests=4, code_opt=None):
     return {"cname": "T", "setup": [[s, v] for s, v in slots.items()], "tests": tests}
 
 
+# ----------------------------------------------------------------------------- directed families
+#
+# Classes of tests in which a wrong PASS needs more than one well-behaved step of the pipeline:
+#   reread    a calldata word is constrained by `== const` on one branch (which ends benignly) and is READ AGAIN
+#             on the sibling branch, where the failure needs a different value          (per-path substitution state)
+#   multidyn  several dynamic parameters; the failure needs a COMBINATION of lengths, each possibly different
+#             from the first / last candidate explored                                  (per-path size candidates)
+#   special   the failure sits at a point where an arithmetic operation has its special-case value (zero divisor,
+#             MIN / -1, wrap-around), reached through a symbolic operand                (abstraction + refinement)
+
+BENIGN = [["stop"], ["revert"], ["invalid"], ["panic_len", 35, 1], ["error_sel", 0x08C379A0, 1]]
+SPECIAL_OPS = ["div", "mod", "sdiv", "smod", "mul", "mod", "smod"]
+
+
+def _violating(rng, codes):
+    return rng.choice([["panic", rng.choice(sorted(codes) if codes else PANIC_CODES)], ["panic", rng.choice(sorted(codes) if codes else PANIC_CODES)], ["fail"]])
+
+
+def _benign(rng, codes):
+    out = list(BENIGN)
+    out += [["panic", k] for k in PANIC_CODES if codes and k not in codes][:2]
+    return rng.choice(out)
+
+
+def gen_reread(rng, name, codes):
+    shape = rng.choice([["uint256"], ["uint256", "uint256"], ["uint256[]", "uint256"], ["uint256", "bytes"], ["uint256[]"]])
+    statics = [i for i, t in enumerate(shape) if t == "uint256"]
+    pre = None
+    if statics and (rng.random() < 0.8 or "uint256[]" not in shape):
+        atom = ["arg", rng.choice(statics)]
+    else:
+        i = shape.index("uint256[]")
+        atom, pre = ["elem", i, 0], ["gt", ["len", i], ["const", 0]]
+    c = rng.choice([1, 2, 5, 42, 255, 1000, 1 << 64, rng.getrandbits(16) + 1, rng.getrandbits(200) + 1])
+    kind = rng.choice(["lt", "gt", "eq", "bit", "arith"])
+    if kind == "lt":
+        rel = ["lt", atom, ["const", rng.choice([c, max(1, c - 1), max(1, c // 2)])]]
+    elif kind == "gt":
+        rel = ["gt", atom, ["const", rng.choice([c, c + 1, c * 2])]]
+    elif kind == "eq":
+        rel = ["eq", atom, ["const", rng.choice([c + 1, c - 1, c ^ 0xFF, 0])]]
+    elif kind == "bit":
+        k = next(b for b in range(256) if not c >> b & 1)
+        rel = ["bit", atom, k]
+    else:
+        d = rng.choice([1, 3, 1 << 128])
+        rel = ["eq", ["add", atom, ["const", d]], ["const", (c + d + rng.choice([1, 2, 77])) % M]]
+    first = ["eq", atom, ["const", c]]
+    if pre:
+        first, rel = ["cand", pre, first], ["cand", pre, rel]
+    clauses = [[first, _benign(rng, codes)]]
+    if rng.random() < 0.3:
+        clauses.append([["eq", atom, ["const", (c + 7) % M]] if not pre else ["cand", pre, ["eq", atom, ["const", (c + 7) % M]]], _benign(rng, codes)])
+    clauses.append([rel, _violating(rng, codes)])
+    return {"name": name, "params": shape, "clauses": clauses}
+
+
+def gen_multidyn(rng, name, codes, bytes_bounds, array_bounds, combo=None):
+    shape = rng.choice([["uint256[]", "uint256[]"], ["bytes", "bytes"], ["uint256[]", "bytes"], ["bytes", "uint256[]"], ["uint256", "uint256[]", "bytes"],
+                        ["uint256[]", "uint256", "uint256[]"], ["string", "uint256[]"], ["uint256[]", "uint256[]", "bytes"]])
+    dyn = [(i, array_bounds if t.endswith("[]") else bytes_bounds) for i, t in enumerate(shape) if l3.is_dynamic(t)]
+    picks = [(i, (b[combo[k] % len(b)] if combo else rng.choice(b))) for k, (i, b) in enumerate(dyn)]
+    conds = [["eq", ["len", i], ["const", n]] for i, n in picks]
+    style = rng.choice(["and", "and", "seq", "ineq"])
+    if style == "ineq":
+        conds = [(["lt", ["len", i], ["const", n + 1]] if rng.random() < 0.5 else ["gt", ["len", i], ["const", n - 1]]) if n > 0 else ["iszero", ["len", i]] for i, n in picks]
+    if style == "seq" and len(conds) >= 2:
+        # if (len_a != n_a) benign; ...; if (len_last == n_last) fail
+        clauses = [[["cnot", c], _benign(rng, codes)] for c in conds[:-1]] + [[conds[-1], _violating(rng, codes)]]
+    else:
+        g = conds[-1]
+        for c in reversed(conds[:-1]):
+            g = ["cand", c, g]
+        clauses = [[g, _violating(rng, codes)]]
+    return {"name": name, "params": shape, "clauses": clauses}
+
+
+def gen_special(rng, name, codes, op=None):
+    op = op or rng.choice(SPECIAL_OPS)
+    a, b = ["arg", 0], ["arg", 1]
+    MIN = 1 << 255
+    if op == "mul":
+        A, B = rng.choice([(MIN, 2), (M - 1, M - 1), ((1 << 128) + 1, 1 << 128), (3, (M - 1) // 3 + 1)])
+    elif op in ("sdiv", "smod") and rng.random() < 0.35:
+        A, B = MIN, M - 1
+    else:
+        A, B = rng.choice([7, 1, 255, 1 << 200, M - 1, rng.getrandbits(256) | 1]), 0
+    val = eval_expr([op, ["const", A], ["const", B]], {})
+    pin_b = ["iszero", b] if B == 0 and rng.random() < 0.5 else ["eq", b, ["const", B]]
+    style = rng.choice(["pin", "pin", "range"])
+    if style == "pin" or B != 0:
+        g = ["cand", pin_b, ["cand", ["eq", a, ["const", A]], ["eq", [op, a, b], ["const", val]]]]
+    else:
+        # zero divisor: the result is 0 whatever the dividend
+        g = ["cand", pin_b, ["cand", ["gt", a, ["const", rng.choice([0, 7, 1 << 64])]], rng.choice([["eq", [op, a, b], ["const", 0]], ["lt", [op, a, b], ["const", 1]], ["iszero", [op, a, b]]])]]
+    clauses = [[g, _violating(rng, codes)]]
+    if rng.random() < 0.4:
+        clauses.insert(0, [["eq", [op, a, b], ["const", (val + 1) % M]], _benign(rng, codes)])
+    return {"name": name, "params": ["uint256", "uint256"], "clauses": clauses}
+
+
+def gen_directed_contract(rng, code_opt=None, n_each=2, combos=None, ops=None):
+    codes = parse_codes(code_opt)
+    bytes_bounds, array_bounds = [0, 65, 1024], [0, 1, 2]
+    tests = []
+    for k in range(n_each):
+        tests.append(gen_reread(rng, f"check_rr{k}", codes))
+    for k, op in enumerate(ops if ops is not None else [None] * n_each):
+        tests.append(gen_special(rng, f"check_sp{k}", codes, op))
+    for k, combo in enumerate(combos if combos is not None else [None] * n_each):
+        tests.append(gen_multidyn(rng, f"check_md{k}", codes, bytes_bounds, array_bounds, combo))
+    return {"cname": "T", "setup": [], "tests": tests}
+
+
 def expected_bounds(test, bytes_bounds=(0, 65, 1024), array_bounds=(0, 1, 2)):
     return {i: list(array_bounds if t.endswith("[]") else bytes_bounds) for i, t in enumerate(test["params"]) if l3.is_dynamic(t)}
 
